@@ -1,10 +1,13 @@
 """C08 - every documented operation is offered with its effective parameters, or reported.
 
 Stages: proofs (Properties_C08.v) -> correspondence: generated documents x generated access sequences on real schema
-objects (schemathesis.openapi.from_dict) against Model_C08.run_views evaluated by vm_compute -> oracle search on the
-implementation (cached lookups vs lookups on a fresh schema object; override precedence; every operation Ok or Err;
-effective (name, location) keys incl. security-derived parameters for every access route against an own oracle on the
-raw document; JSON vs YAML serialisation of the same document) -> replay of the listed findings.
+objects (schemathesis.openapi.from_dict) against Model_C08.run_views evaluated by vm_compute; region predicates; security
+keys; JSON-pointer escaping of path keys (reference_of / path_of_reference / plain_entry / operation_ref_target) ->
+oracle search on the implementation (cached lookups vs lookups on a fresh schema object; override precedence; every
+operation Ok or Err; effective (name, location) keys incl. security-derived parameters for every access route against
+an own oracle on the raw document; the reference round trip get_operation_by_reference(operation_reference) in every
+access order and the link statistic; JSON vs YAML serialisation of the same document; two-file layouts) -> replay of
+the listed findings.
 """
 from __future__ import annotations
 
@@ -266,8 +269,78 @@ JUNK = [None, 5, "x", [], {}, [5], ["x"], True, "", [[]], "$ref"]
 MEDIA = ["application/json", "text/plain", "multipart/form-data", "application/x-www-form-urlencoded", "application/xml"]
 
 
+# path keys that need JSON-pointer escaping beyond the slash (RFC 6901: ~ is ~0, / is ~1, so a literal ~1 is ~01), and
+# path keys with percent signs (operation_reference leaves them alone, the resolver unquotes the fragment)
+TILDE_PATHS = ["/a/v~1", "/x~0", "/t~01", "/t~10", "/w~~1", "/~", "/~1", "/m~1n/{id}", "/~0~1", "/n~", "/PROGRA~1/{id}", "/~{id}/x", "/é~1", "/a/v~1/"]
+PCT_PATHS = ["/p%2Fq", "/p%7Eq", "/p%7E1", "/p%41", "/p%", "/p%zz", "/p%2f~1", "/%7E"]
+PCT_RE = __import__("re").compile(r"%[0-9a-fA-F]{2}")
+
+
 def esc_pointer(s: str) -> str:
     return s.replace("~", "~0").replace("/", "~1")
+
+
+def unesc_pointer(s: str) -> str:
+    """RFC 6901 section 4: first ~1 to /, then ~0 to ~ (own decoder of the oracles)."""
+    out, i = [], 0
+    while i < len(s):
+        if s[i] == "~" and i + 1 < len(s) and s[i + 1] in "01":
+            out.append("/" if s[i + 1] == "1" else "~")
+            i += 2
+        else:
+            out.append(s[i])
+            i += 1
+    return "".join(out)
+
+
+def confusable_paths(p: str) -> list[str]:
+    """Other path keys a faulty pointer codec would confuse with p: decoding in the other order, not at all, twice,
+    only one of the two substitutions, encoding in the other order, percent-unquoting."""
+    from urllib.parse import unquote
+
+    e = esc_pointer(p)
+    cands = [
+        e.replace("~0", "~").replace("~1", "/"),
+        e,
+        unesc_pointer(p),
+        e.replace("~1", "/"),
+        e.replace("~0", "~"),
+        unesc_pointer(p.replace("/", "~1").replace("~", "~0")),
+        unquote(p),
+        unesc_pointer(unquote(p)),
+    ]
+    out = []
+    for q in cands:
+        if q and q != p and q not in out and q.startswith("/"):
+            out.append(q)
+    return out
+
+
+def special_path(p: str) -> bool:
+    return "~" in p or "%" in p
+
+
+def pick_paths(rng, k):
+    """k path keys; a third of the documents carry 1-2 keys with tildes / percent signs, most of those together with a
+    key that a faulty pointer codec would confuse with them (/a/v~1 and /a/v/)."""
+    if rng.random() >= 0.33:
+        return rng.sample(PATHS, k)
+    out = []
+    for _ in range(rng.choice([1, 1, 2])):
+        p = rng.choice(TILDE_PATHS) if rng.random() < 0.8 else rng.choice(PCT_PATHS)
+        if p in out:
+            continue
+        out.append(p)
+        conf = confusable_paths(p)
+        if conf and rng.random() < 0.65:
+            q = rng.choice(conf)
+            if q not in out:
+                out.append(q)
+    for p in rng.sample(PATHS, max(0, k - len(out))):
+        if p not in out:
+            out.append(p)
+    rng.shuffle(out)
+    return out
 
 
 def gen_param(rng, v20, names=NAMES):
@@ -396,10 +469,10 @@ def gen_doc(rng, malform=None):
     paths = {}
     shared_items = {}
     ref_first = rng.random() < 0.25
-    for n_path, p in enumerate(rng.sample(PATHS, rng.choice([1, 2, 2, 3, 4]))):
+    for n_path, p in enumerate(pick_paths(rng, rng.choice([1, 2, 2, 3, 4]))):
         item = gen_path_item()
         r = rng.random()
-        if r < 0.15 or (ref_first and n_path == 0):
+        if (r < 0.15 and not (special_path(p) and rng.random() < 0.7)) or (ref_first and n_path == 0):
             key = f"I{len(shared_items)}"
             shared_items[key] = item
             paths[p] = {"$ref": ("#/x-items/" if v20 else "#/components/pathItems/") + key}
@@ -650,6 +723,16 @@ def gen_accesses(rng, doc, n=None):
         out.append(["id", rng.choice(ids)])
         n -= 1
     focus = rng.sample(ops, min(len(ops), rng.choice([1, 2]))) if ops else []
+    special = [po for po in ops if special_path(po[0])]
+    if special and rng.random() < 0.75:
+        # the keys that need escaping and the keys they could be confused with, in both orders
+        focus = rng.sample(special, min(len(special), 2))
+        if len(focus) < 2:
+            others = [po for po in ops if po not in focus]
+            conf = [po for po in others if po[0] in confusable_paths(focus[0][0])]
+            if conf or others:
+                focus.append(rng.choice(conf or others))
+        rng.shuffle(focus)
     if out and id_owner(doc, out[0][1]):
         focus = [id_owner(doc, out[0][1])] + focus[:1]
     for _ in range(n):
@@ -727,6 +810,10 @@ def canonical_reference(a) -> bool:
 
 def order_region(doc, accs, seq, fresh):
     """Which listed region explains a difference between cached and fresh lookups (None = outside every region)."""
+    if any(a[0] == "ref" and PCT_RE.search(a[1]) for a in accs):
+        # the reference of a path key with a percent escape resolves to ANOTHER key (or to none): what a lookup by that
+        # reference caches under the traversal key of the path is another operation
+        return "percent_in_path"
     if duplicate_ids(doc):
         return "duplicate_operation_id"
     if strip(seq, scope=True) == strip(fresh, scope=True) and any(a[0] == "ref" for a in accs):
@@ -972,6 +1059,8 @@ def effective_keys_failures(rng, doc):
                         continue
                     op = schema.get_operation_by_id(oid)
                 else:
+                    if PCT_RE.search(p):
+                        continue  # region percent_in_path (finding F8): judged by the reference round-trip oracle
                     op = schema.get_operation_by_reference(f"#/paths/{esc_pointer(p)}/{m}")
             except Exception:  # noqa: BLE001
                 continue  # not offered this way: the accounting oracle's business
@@ -989,6 +1078,383 @@ def effective_keys_failures(rng, doc):
         rng.shuffle(plan)
         lookups(load(), plan, "shared instance: ")
     return n_obs, fails, skipped
+
+
+# ----------------------------------------------------------------------------------------
+# path keys that need JSON-pointer escaping: generator, the reference round trip (independent oracle), the link statistic
+# ----------------------------------------------------------------------------------------
+POINTER_ALPHABET = ["~", "~", "0", "1", "/", "a", "{id}", "é", "~0", "~1", "~01", "~10", "~~", "v", ".", "-"]
+PCT_ALPHABET = ["%", "%2F", "%7E", "%7e", "%41", "%2f", "%25", "%zz"]
+
+
+def random_special_path(rng, pct):
+    alpha = POINTER_ALPHABET + (PCT_ALPHABET if pct else [])
+    return "/" + "".join(rng.choice(alpha) for _ in range(rng.choice([1, 2, 3, 4, 6])))
+
+
+def gen_pointer_doc(rng, pct=None):
+    """A well-formed document whose path keys contain ~, ~0, ~1, ~01, ~10, ~~1, slashes (and, with pct, percent
+    escapes), usually next to the key a faulty pointer codec would confuse them with.  Every operation has its own
+    operationId and its own parameter names, so another operation coming back from a lookup is visible; links by
+    operationRef / operationId point at the operations."""
+    if pct is None:
+        pct = rng.random() < 0.2
+    v20 = rng.random() < 0.25
+    keys = []
+
+    def add(k):
+        if k not in keys and len(keys) < 6:
+            keys.append(k)
+
+    for _ in range(rng.choice([1, 2, 2, 3])):
+        r = rng.random()
+        if r < 0.4:
+            k = rng.choice(TILDE_PATHS)
+        elif r < 0.8:
+            k = random_special_path(rng, pct)
+        elif r < 0.9 and pct:
+            k = rng.choice(PCT_PATHS)
+        else:
+            k = rng.choice(PATHS)
+        add(k)
+        conf = confusable_paths(k)
+        if not pct:
+            conf = [q for q in conf if "%" not in q]
+        if conf and rng.random() < 0.7:
+            for q in rng.sample(conf, min(len(conf), rng.choice([1, 1, 2]))):
+                add(q)
+    rng.shuffle(keys)
+    paths, shared_items, ops = {}, {}, []
+    n_op = 0
+    for k in keys:
+        item = {}
+        if rng.random() < 0.4:
+            sp = {"name": f"s{len(paths)}", "in": rng.choice(["query", "header"])}
+            if v20:
+                sp["type"] = "string"
+            else:
+                sp["schema"] = {"type": "string"}
+            item["parameters"] = [sp]
+        for m in rng.sample(HTTP_METHODS[:4], rng.choice([1, 1, 2])):
+            prm = {"name": f"q{n_op}", "in": rng.choice(["query", "header", "query"]), "required": rng.choice([True, False])}
+            if v20:
+                prm["type"] = rng.choice(["string", "integer"])
+            else:
+                prm["schema"] = {"type": rng.choice(["string", "integer"])}
+            item[m] = {"operationId": f"op{n_op}", "parameters": [prm], "responses": {"200": {"description": "ok"}}}
+            ops.append((k, m))
+            n_op += 1
+        if rng.random() < 0.1:
+            name = f"I{len(shared_items)}"
+            shared_items[name] = item
+            paths[k] = {"$ref": ("#/x-items/" if v20 else "#/components/pathItems/") + name}
+        else:
+            paths[k] = item
+    links_field = "x-links" if v20 else "links"
+    n_link = 0
+    for k, m in ops:
+        if rng.random() < 0.65:
+            item = paths[k] if "$ref" not in paths[k] else shared_items[paths[k]["$ref"].rsplit("/", 1)[1]]
+            links = {}
+            for _ in range(rng.choice([1, 1, 2])):
+                tk, tm = rng.choice([po for po in ops if special_path(po[0])] or ops) if rng.random() < 0.7 else rng.choice(ops)
+                r = rng.random()
+                if r < 0.7:
+                    link = {"operationRef": f"#/paths/{esc_pointer(tk)}/{tm}"}
+                elif r < 0.85:
+                    titem = paths[tk] if "$ref" not in paths[tk] else shared_items[paths[tk]["$ref"].rsplit("/", 1)[1]]
+                    link = {"operationId": titem[tm]["operationId"]}
+                elif r < 0.93:
+                    link = {"operationRef": rng.choice(["#/paths/~1nope/get", f"#/paths/{esc_pointer(tk)}/trace", "#/paths"])}
+                else:
+                    link = {"operationId": "nope"}
+                links[f"L{n_link}"] = link
+                n_link += 1
+            item[m]["responses"]["200"][links_field] = links
+    if v20:
+        doc = {"swagger": "2.0", "info": {"title": "t", "version": "1"}, "paths": paths}
+        if shared_items:
+            doc["x-items"] = shared_items
+    else:
+        doc = {"openapi": rng.choice(["3.0.2", "3.1.0"]), "info": {"title": "t", "version": "1"}, "paths": paths}
+        if shared_items:
+            doc["components"] = {"pathItems": shared_items}
+    return doc
+
+
+def doc_links(doc):
+    """The link objects of the document (through path items behind $ref), in document order."""
+    out = []
+    field = "x-links" if "swagger" in doc else "links"
+    for p, m in doc_keys(doc)[1]:
+        item = local_target(doc, doc["paths"][p])
+        op = item.get(m) if isinstance(item, dict) else None
+        if not isinstance(op, dict) or not isinstance(op.get("responses"), dict):
+            continue
+        for resp in op["responses"].values():
+            if isinstance(resp, dict) and isinstance(resp.get(field), dict):
+                out += [l for l in resp[field].values() if isinstance(l, dict)]
+    return out
+
+
+def inline_ops(doc):
+    """(path, method) of the operations whose path item is written inline under its key (they have a #/paths/... reference)."""
+    out = []
+    for p, m in doc_keys(doc)[1]:
+        item = doc["paths"][p]
+        if isinstance(item, dict) and "$ref" not in item and isinstance(item.get(m), dict):
+            out.append((p, m))
+    return out
+
+
+def o_link_selected(doc, link) -> bool:
+    """Own oracle: does the link name a documented operation?  operationRef is read by RFC 6901: the reference has to be
+    #/paths/<token>/<method> and <token> decodes (~1 first, then ~0) to the key of an inline path item."""
+    _, ops, ids = doc_keys(doc)
+    if "operationId" in link:
+        return link["operationId"] in ids
+    ref = link.get("operationRef")
+    if not isinstance(ref, str) or not ref.startswith("#/paths/"):
+        return False
+    parts = ref[2:].split("/")
+    if len(parts) != 3:
+        return False
+    return (unesc_pointer(parts[1]), parts[2]) in inline_ops(doc)
+
+
+def describe_op(op):
+    return {"path": op.path, "method": op.method, "raw": op.definition.raw, "keys": sorted(set(impl_keys(op)))}
+
+
+def reference_roundtrip_failures(rng, doc):
+    """For every operation with an inline path item: get_operation_by_reference(operation.operation_reference) has to be
+    the operation of that (path, method): same path, method, raw definition (the one written in the document) and parameter
+    keys as the oracle computes from the document; the same object as schema[path][method] / get_operation_by_id on the
+    same schema object - whatever was looked up before (reference first; every path first; reference then id; all routes
+    shuffled on one object).  operation_reference itself has to be the RFC 6901 pointer.  The link statistic has to count
+    every link that names a documented operation.  -> (observations, [(operation, order, detail)])"""
+    import schemathesis
+
+    ops = inline_ops(doc)
+    fails, n_obs = [], 0
+    want = {}
+    for p, m in ops:
+        try:
+            w = effective_keys_oracle(doc, p, m)
+            keys = sorted(w["expected"])
+        except NotApplicable:
+            keys = None
+        want[(p, m)] = {"path": p, "method": m, "raw": doc["paths"][p][m], "keys": keys}
+
+    def judge(po, order, got, same_as=None):
+        nonlocal n_obs
+        n_obs += 1
+        w = want[po]
+        if isinstance(got, Exception):
+            fails.append((list(po), order, {"expected": f"{po[1].upper()} {po[0]}", "raises": exc_class(got), "message": str(got)[:200]}))
+            return
+        d = describe_op(got)
+        off = {k: {"expected": w[k], "got": d[k]} for k in ("path", "method", "raw") if d[k] != w[k]}
+        if w["keys"] is not None and [list(k) for k in w["keys"]] != [list(k) for k in d["keys"]]:
+            off["keys"] = {"expected": [list(k) for k in w["keys"]], "got": [list(k) for k in d["keys"]]}
+        if same_as is not None and same_as is not got:
+            off["identity"] = f"not the object returned for {same_as.label} by the other route"
+        if off:
+            fails.append((list(po), order, off))
+
+    with warnings.catch_warnings():
+        warnings.simplefilter("ignore")
+        load = lambda: schemathesis.openapi.from_dict(copy.deepcopy(doc))  # noqa: E731
+        refs = {}
+        twin = load()
+        for p, m in ops:
+            try:
+                refs[(p, m)] = twin[p][m].operation_reference
+            except Exception:  # noqa: BLE001
+                continue
+            n_obs += 1
+            if refs[(p, m)] != f"#/paths/{esc_pointer(p)}/{m}":
+                fails.append(([p, m], "operation_reference", {"expected": f"#/paths/{esc_pointer(p)}/{m}", "got": refs[(p, m)]}))
+
+        def baseline(po):
+            # the lookup by path and method on a fresh object offers the documented operation (else: the other oracles' business)
+            try:
+                d = describe_op(load()[po[0]][po[1]])
+            except Exception:  # noqa: BLE001
+                return False
+            w = want[po]
+            return all(d[k] == w[k] for k in ("path", "method", "raw")) and (w["keys"] is None or [list(k) for k in w["keys"]] == [list(k) for k in d["keys"]])
+
+        ops = [po for po in ops if po in refs and baseline(po)]
+
+        def by_ref(schema, po):
+            try:
+                return schema.get_operation_by_reference(refs[po])
+            except Exception as e:  # noqa: BLE001
+                return e
+
+        # 1. reference first, on a fresh object each
+        for po in ops:
+            judge(po, "reference first", by_ref(load(), po))
+        # 2. every path first (in a shuffled order), then the references
+        schema = load()
+        direct = {}
+        for po in rng.sample(ops, len(ops)):
+            direct[po] = schema[po[0]][po[1]]
+        for po in ops:
+            judge(po, "every path first, then by reference", by_ref(schema, po), same_as=direct[po])
+        # 3. reference, then operationId
+        schema = load()
+        has_id = lambda po: isinstance(want[po]["raw"], dict) and isinstance(want[po]["raw"].get("operationId"), str)  # noqa: E731
+        for po in rng.sample(ops, len(ops)):
+            r = by_ref(schema, po)
+            if not has_id(po):
+                continue
+            try:
+                i = schema.get_operation_by_id(want[po]["raw"]["operationId"])
+            except Exception as e:  # noqa: BLE001
+                i = e
+            judge(po, "by reference, then by operationId (the operationId result)", i, same_as=None if isinstance(r, Exception) else r)
+        # 4. all routes shuffled on one object
+        schema = load()
+        plan = [(route, po) for po in ops for route in ("path", "id", "reference", "reference") if route != "id" or has_id(po)]
+        rng.shuffle(plan)
+        first = {}
+        for route, po in plan:
+            try:
+                if route == "path":
+                    got = schema[po[0]][po[1]]
+                elif route == "id":
+                    got = schema.get_operation_by_id(want[po]["raw"]["operationId"])
+                else:
+                    got = schema.get_operation_by_reference(refs[po])
+            except Exception as e:  # noqa: BLE001
+                got = e
+            judge(po, f"mixed order {[r[0] + ':' + r[1][0] for r in plan]}: by {route}", got, same_as=first.get(po))
+            if not isinstance(got, Exception):
+                first.setdefault(po, got)
+        # 5. the link statistic
+        links = doc_links(doc)
+        if links:
+            n_obs += 1
+            expect = {"total": len(links), "selected": sum(1 for l in links if o_link_selected(doc, l))}
+            try:
+                st = load().statistic.links
+                got = {"total": st.total, "selected": st.selected}
+            except Exception as e:  # noqa: BLE001
+                got = {"raises": exc_class(e)}
+            if got != expect:
+                off = [l for l in links if "operationRef" in l]
+                fails.append((None, "link statistic", {"expected": expect, "got": got, "links": links,
+                                                       "percent": any(PCT_RE.search(l["operationRef"]) for l in off if isinstance(l["operationRef"], str))}))
+    return n_obs, fails
+
+
+def roundtrip_region(operation, detail):
+    """Finding F8: a path key with a percent escape (the reference operation_reference builds is unquoted by the resolver)."""
+    if operation is None:
+        return "percent_in_path" if detail.get("percent") else None
+    return "percent_in_path" if PCT_RE.search(operation[0]) else None
+
+
+def reference_stage(chk, rng, n):
+    """Stage 2d.  Per document: (i) Model_C08.reference_of against APIOperation.operation_reference, path_of_reference of it
+    against the (path, method) of the operation get_operation_by_reference returns; (ii) the region predicate plain_entry and
+    the hypotheses of C08_reference_and_path_lookups_any_order_partial evaluated in Coq: where they hold, the implementation's
+    lookups by reference / by path in a shuffled order on ONE object equal the lookups on fresh objects, and by reference
+    equals by path; (iii) Model_C08.operation_ref_target per link against the link statistic."""
+    import schemathesis
+
+    docs = [gen_pointer_doc(rng) for _ in range(n)]
+    exprs, metas = [], []
+    with warnings.catch_warnings():
+        warnings.simplefilter("ignore")
+        for doc in docs:
+            v = version_of(doc)
+            ops = doc_keys(doc)[1][:5]
+            twin = schemathesis.openapi.from_dict(copy.deepcopy(doc))
+            refs = {}
+            for p, m in ops:
+                try:
+                    refs[(p, m)] = twin[p][m].operation_reference
+                except Exception:  # noqa: BLE001
+                    refs[(p, m)] = None
+            accs = []
+            for p, m in ops:
+                accs.append(["get", p, m])
+                if refs[(p, m)] is not None and (p, m) in inline_ops(doc):
+                    accs += [["ref", refs[(p, m)]]] * rng.choice([1, 2])
+            rng.shuffle(accs)
+            links = [l for l in doc_links(doc) if "operationRef" in l]
+            pm = clist([f"({cstr(p)}, {cstr(m)})" for p, m in ops], "(str * str)")
+            cacc = clist([c_access(a) for a in accs], "access")
+            exprs.append(
+                f"(let d := {cjson(doc)} in "
+                f"(map (fun pm => (reference_of (fst pm) (snd pm), path_of_reference (reference_of (fst pm) (snd pm)), plain_entry d (fst pm) (snd pm))) {pm}, "
+                f"map (operation_ref_target d) {clist([cjson(l['operationRef']) for l in links], 'json')}, "
+                f"forallb (plain_access d) {cacc} && forallb (self_ok {v} d) {cacc}))")
+            metas.append((doc, ops, refs, accs, links))
+            chk.seen({"doc": doc, "stage": "reference"}, True)
+    vals = core.coq_eval(IMPORTS, exprs, shard=25)
+    n_ref = n_plain = n_seq = n_links = 0
+    with warnings.catch_warnings():
+        warnings.simplefilter("ignore")
+        for (doc, ops, refs, accs, links), (per_op, targets, seq_ok) in zip(metas, vals):
+            load = lambda: schemathesis.openapi.from_dict(copy.deepcopy(doc))  # noqa: E731
+            for (p, m), (mref, mpath, plain) in zip(ops, per_op):
+                inp = {"doc": doc, "operation": [p, m]}
+                mref = pstr(mref)
+                mpm = None if mpath is None else [pstr(mpath[1][0]), pstr(mpath[1][1])]
+                if mpm != [p, m]:
+                    chk.disagree("C08_reference_roundtrip: path_of_reference (reference_of p m) is not (p, m)", inp, [p, m], mpm)
+                if refs[(p, m)] is None:
+                    continue
+                n_ref += 1
+                chk.count("reference:" + ("percent escape" if PCT_RE.search(p) else "tilde" if "~" in p else "plain") + " path key")
+                if refs[(p, m)] != mref:
+                    chk.disagree("APIOperation.operation_reference vs Model_C08.reference_of", inp, refs[(p, m)], mref)
+                    continue
+                try:
+                    r = load().get_operation_by_reference(refs[(p, m)])
+                    got = [r.path, r.method]
+                except Exception as e:  # noqa: BLE001
+                    r, got = None, {"raises": exc_class(e)}
+                if r is not None and got != mpm:
+                    chk.disagree("(path, method) of get_operation_by_reference(operation_reference) vs Model_C08.path_of_reference", inp, got, mpm)
+                if plain:
+                    n_plain += 1
+                    a = strip(norm([impl_access(load(), ["ref", refs[(p, m)]])]), scope=True)[0]
+                    b = strip(norm([impl_access(load(), ["get", p, m])]), scope=True)[0]
+                    if a.get("raises") == "EKey":
+                        a = {"raises": "ELookup"}
+                    unhashable = isinstance(doc["paths"][p][m], dict) and isinstance(doc["paths"][p][m].get("operationId"), (list, dict))
+                    if a != b and not unhashable:
+                        chk.disagree("C08_reference_lookup_is_path_lookup_partial: plain_entry = true but the implementation's lookup by "
+                                     "operation_reference differs from the lookup by path and method", inp, a, b)
+            if seq_ok and accs:
+                n_seq += 1
+                a = strip(norm(impl_run(doc, accs)), scope=True)
+                b = strip(norm(impl_run(doc, accs, fresh_each=True)), scope=True)
+                if a != b:
+                    chk.disagree("C08_reference_and_path_lookups_any_order_partial: its hypotheses hold but the implementation's lookups on one "
+                                 "schema object differ from the lookups on fresh objects", {"doc": doc, "accesses": accs}, a, b)
+            if links:
+                n_links += 1
+                documented = {(m, p) for p, m in doc_keys(doc)[1]}
+                model_sel = 0
+                for t in targets:
+                    if t is not None and (pstr(t[1][0]), pstr(t[1][1])) in documented:
+                        model_sel += 1
+                model_sel += sum(1 for l in doc_links(doc) if "operationRef" not in l and l.get("operationId") in doc_keys(doc)[2])
+                try:
+                    st = load().statistic.links
+                    impl_sel = [st.total, st.selected]
+                except Exception as e:  # noqa: BLE001
+                    impl_sel = {"raises": exc_class(e)}
+                if impl_sel != [len(doc_links(doc)), model_sel]:
+                    chk.disagree("link statistic (total, selected) vs Model_C08.operation_ref_target per operationRef link", {"doc": doc}, impl_sel, [len(doc_links(doc)), model_sel])
+    return {"documents": len(docs), "operation_references": n_ref, "plain_entries": n_plain,
+            "sequences_in_the_region_of_the_any_order_theorem": n_seq, "documents_with_links": n_links}
 
 
 YAML_PLAIN_KEY = __import__("re").compile(r"[A-Za-z0-9_.\-]+")
@@ -1067,6 +1533,11 @@ def witness_fails(w) -> bool:
             if oid == w["operation"]:
                 return distinct or any(v != expect for v in got.values())
         return False
+    if kind == "reference_roundtrip":
+        import random
+
+        _, fails = reference_roundtrip_failures(random.Random(0), doc)
+        return any(roundtrip_region(op, d) == "percent_in_path" for op, _, d in fails)
     if kind == "order":
         accs = w["accesses"]
         return strip(norm(impl_run(doc, accs))) != norm(impl_run(doc, accs, fresh_each=True))
@@ -1171,10 +1642,13 @@ def run(chk: core.Check):
         "PyYAML (YAML oracle only; not modelled)",
         "effective-keys oracle (effective_keys_oracle: own $ref resolution, operation + path level parameters, security requirements in force -> "
         "(name, location) keys; written from the OpenAPI 2.0 / 3.0 rules, never calls schemathesis)",
+        "reference round-trip oracle (own RFC 6901 encoder / decoder esc_pointer / unesc_pointer, expected operation = the definition written under "
+        "paths[path][method] of the raw document; own count of links that name a documented operation)",
     ]
     chk.assumptions = [
         "to_json_schema_recursive (converter.py, property C01) is a parameter conv of the model; the generators only emit schemas on which it is the identity",
-        "references are local (#/...), without percent signs, $id/$anchor keys or servers/basePath; jsonschema.RefResolver and urllib urljoin behave as modelled for them",
+        "references are local (#/...), without $id/$anchor keys or servers/basePath; jsonschema.RefResolver, urllib urljoin and unquote behave as modelled for them "
+        "(percent escapes of ASCII bytes are modelled; a percent-encoded non-ASCII byte puts the case outside the model)",
         "documents whose reference chains exceed RECURSION_DEPTH_LIMIT inside an operation (recursive schemas) are outside the model (ETruncated) and only counted",
         "header name validation of requests (_VALID_HEADER_NAME_RE_STR) as transcribed in header_name_ok",
     ]
@@ -1187,7 +1661,11 @@ def run(chk: core.Check):
         "casings, by operationId, by reference incl. junk references) focused on 1-2 operations; non-trivial = the document has an operation and "
         "the sequence reaches a cached entry or an error; distinct by canonical JSON; 30% of the documents (50% in the effective-keys search) get 1-3 "
         "planted apiKey schemes named after a parameter declared at operation level / path level / both, in the same location, another location or "
-        "one of each, activated by the document-level or operation-level security, as a new requirement object or a further key of an existing one"
+        "one of each, activated by the document-level or operation-level security, as a new requirement object or a further key of an existing one; "
+        "a third of the documents carry 1-2 path keys that need JSON-pointer escaping beyond the slash (~, ~0, ~1, ~01, ~10, ~~1, a trailing slash, percent "
+        "escapes %2F %7E %41 %zz) together with a key a faulty pointer codec would confuse them with (decoding in the other order / twice / not at all, "
+        "percent-unquoting: /a/v~1 and /a/v/), and their access sequences focus on those keys in both orders; the reference stages use small well-formed "
+        "documents over an alphabet of ~ 0 1 / {id} ~0 ~1 ~01 ~10 ~~ (20% with percent escapes) with links by operationRef / operationId"
     )
     chk.proofs(["Common", "C08"])
     rng = chk.rng
@@ -1267,6 +1745,10 @@ def run(chk: core.Check):
     #      IMPLEMENTATION holds (its parameter definitions per container) with the active definitions the model derives
     chk.stages["security_keys"] = security_keys_stage(chk, rng, cases, 120 if quick else 600)
 
+    # ---- stage 2d: JSON-pointer escaping of path keys: Model_C08.reference_of / path_of_reference / plain_entry /
+    #      operation_ref_target and the hypotheses of the any-order theorem, evaluated in Coq, against the implementation
+    chk.stages["reference_round_trip"] = reference_stage(chk, rng, 120 if quick else 900)
+
     # ---- stage 3: oracle search on the implementation (testing; supports the tie, never replaces a theorem)
     mult = 10 if chk.broken else 1
     n_order = override_n = crash_n = 0
@@ -1329,6 +1811,34 @@ def run(chk: core.Check):
     chk.stages["search_effective_keys"] = {"documents": n_docs, "operation_x_route_observations": n_obs,
                                            "operations_outside_the_oracle": n_na, "documents_failing": n_keyfail}
 
+    # (g) the reference round trip: get_operation_by_reference(operation.operation_reference) is the operation of that (path,
+    #     method) for path keys with ~, ~0, ~1, ~01, ~10, ~~1, percent signs and the keys a faulty codec confuses them with,
+    #     in every access order; the link statistic counts operationRef links to such keys (own RFC 6901 decoder)
+    n_rt_docs = n_rt_obs = n_rt_fail = 0
+    rt_docs = [d for d, _ in cases if any(special_path(p) for p in doc_keys(d)[0])][: (150 if quick else 1500)]
+    rt_docs = [d for d in rt_docs if not id_scan_fails(d) and not duplicate_ids(d)]
+    for _ in range((220 if quick else 2500) * mult):
+        d = gen_pointer_doc(rng)
+        rt_docs.append(d)
+        chk.seen({"doc": d, "stage": "reference-round-trip"}, True)
+    for doc in rt_docs:
+        n_rt_docs += 1
+        try:
+            obs, fails = reference_roundtrip_failures(rng, doc)
+        except Exception:  # noqa: BLE001
+            continue  # a malformed correspondence document the oracle cannot walk: the other stages' business
+        n_rt_obs += obs
+        by_region = {}
+        for operation, order, detail in fails:
+            by_region.setdefault(roundtrip_region(operation, detail), (operation, order, detail))
+        for region, (operation, order, detail) in by_region.items():
+            n_rt_fail += 1
+            chk.fail("lookup by JSON reference (operation_reference) does not return the documented operation of that path and method, "
+                     "or the link statistic does not count a link to it",
+                     {"kind": "reference_roundtrip", "doc": doc, "operation": operation, "order": order},
+                     {**detail, "failing_lookups_in_this_document": len(fails)}, region=region)
+    chk.stages["search_reference_round_trip"] = {"documents": n_rt_docs, "observations": n_rt_obs, "failing": n_rt_fail}
+
     # (d) JSON vs YAML serialisation of the same document
     import schemathesis
 
@@ -1378,6 +1888,15 @@ def replay(payload) -> int:
             for oid, expect, got, distinct in two_file_eval(inp["root"], inp["shared"], inp["owners"], inp["operations"], inp["order"]):
                 if oid == inp["operation"]:
                     print("  expected:", expect, "\n  got     :", got, "\n  different objects:", distinct)
+        elif inp.get("kind") == "reference_roundtrip":
+            import random
+
+            obs, fails = reference_roundtrip_failures(random.Random(0), inp["doc"])
+            print("  operation", inp["operation"], "order", inp["order"])
+            for operation, order, detail in fails[:4]:
+                print("   ", operation, "|", order, "|", json.dumps(detail, default=repr)[:400])
+            if not fails:
+                print("   no longer failing (%d observations)" % obs)
         elif inp.get("kind") == "effective_keys":
             import random
 
@@ -1430,7 +1949,7 @@ def two_file_docs(rng):
     if rng.random() < 0.5:
         kinds[0] = True  # a path item behind $ref first, inline ones after it
     for i, behind_ref in enumerate(kinds):
-        path = f"/p{i}"
+        path = f"/p{i}" + rng.choice(["", "", "~1", "~0/x", "/~01"])
         item = {}
         if rng.random() < 0.4:
             item["parameters"] = [{"name": "s", "in": "query", "schema": {"type": "boolean"}}]
